@@ -39,7 +39,7 @@ def plan(tier):
 
 def profile(tier, rng):
     return R.Profile(allow=R.HAZARDS, max_depth=6 if tier == "quick" else rng.choice([6, 10]), min_depth=0,
-                     expr_depth=2 if tier == "quick" else rng.choice([2, 3]), self_join_p=0.15)
+                     expr_depth=2 if tier == "quick" else rng.choice([2, 3]), self_join_p=0.15, pair_keys_p=0.25)
 
 
 def add_hostile_tail(g, st, rng, log):
